@@ -137,4 +137,17 @@ BENIGN += [
     (SSA, "for child in op.iter_children() {\n                todo.push(child);\n                *parent_count.get_mut(&child).unwrap() -= 1;\n            }", "for child in op.iter_children() {\n                *parent_count.get_mut(&child).unwrap() -= 1;\n                todo.push(child);\n            }", "SsaTape::new pass 2: swap two independent statements"),
     (SSA, "let i = slot_count;\n                    slot_count += 1;\n                    mapping.insert(node, Slot::Reg(i))", "let slot = slot_count;\n                    slot_count += 1;\n                    mapping.insert(node, Slot::Reg(slot))", "SsaTape::new pass 1: rename the fresh slot"),
     (SSA, "if *parent_count.get(&node).unwrap_or(&0) > 0 || !seen.insert(node)\n            {\n                continue;\n            }", "if parent_count.get(&node).copied().unwrap_or(0) > 0 {\n                continue;\n            }\n            if !seen.insert(node) {\n                continue;\n            }", "SsaTape::new pass 2: split the gate, copied()"),
+    # ---- script engine -----------------------------------------------------
+    (
+        "fidget-rhai/src/lib.rs",
+        "    if ctx.scope().contains(name) {\n        Ok(None)\n    } else {\n        match name {",
+        "    if ctx.scope().contains(name) {\n        return Ok(None);\n    }\n    {\n        match name {",
+        "resolver: if / else -> early return",
+    ),
+    (
+        "fidget-rhai/src/lib.rs",
+        "    if ctx.scope().contains(name) {\n        Ok(None)\n    } else {\n        match name {\n            \"x\" =>",
+        "    {\n        match name {\n            n if ctx.scope().contains(n) => Ok(None),\n            \"x\" =>",
+        "resolver: scope test as the first guarded arm",
+    ),
 ]
